@@ -43,9 +43,14 @@ Fixpoint nd_sort (l : list Z) : list Z :=
   match l with [] => [] | x :: tl => nd_insert x (nd_sort tl) end.
 Definition nd_collect_sort {E} (key : E -> Z) (es : list E) : list Z := nd_sort (map key es).
 
-(* StakePoolUnlock: `!stakedAt.Add(minLockPeriod).Before(time.Now())` refuses; [now] is the wall clock of the
-   executing node, [txn_time] the creation date of the transaction (what a deterministic rule would use) *)
-Definition nd_unlock_allowed (staked_at period now : Z) : bool := Z.ltb (staked_at + period) now.
+(* StakePoolUnlock: `!stakedAt.Add(minLockPeriod).Before(common.ToTime(t.CreationDate))` refuses: the rule reads the
+   creation date of the transaction (part of the block), not the clock of the executing node *)
+Definition nd_unlock_allowed (staked_at period txn_time : Z) : bool := Z.ltb (staked_at + period) txn_time.
+
+(* the repaired loops visit the keys in sorted order: `for _, key := range config.SortedKeys(fields)`, and
+   updateState emits the user events in sorted user-id order *)
+Definition nd_first_error_sorted (err : Z -> option Z) (keys : list Z) : option Z := nd_first_error Z err (nd_sort keys).
+Definition nd_emit_sorted (events : list Z) (keys : list Z) : list Z := nd_emit_all Z events (nd_sort keys).
 
 (* a block as a sequence of steps; each step receives the iteration order chosen by the runtime for it *)
 Definition nd_step (S : Type) : Type := S -> list Z -> S.
@@ -73,4 +78,4 @@ Definition nd_allowed (k : string) : bool := existsb (fun a => String.eqb (fst (
 Definition nd_site_ok (x : nd_site) : bool := (nd_class_independent (nd_site_class x) || nd_allowed (nd_site_key x))%bool.
 
 Definition nd_findings : list string :=
-  map (fun a => fst (fst a)) (filter (fun a => match snd (fst a) with AlFinding => true | AlLemma => false end) gen_nd_allow).
+  map (fun a => fst (fst a)) (filter (fun a => match snd (fst a) with AlFinding => true | _ => false end) gen_nd_allow).
